@@ -28,6 +28,9 @@ structure SpecSt where
   l : List Val
   ppf : Option Nat := none
   err : Option Nat := none
+  /-- the configuration record the instance was created with (stream `resets`, which applies list operations only:
+  none of them, Reset included, may change it apart from the recorded error) -/
+  cfg0 : Cfg := {}
 
 def obsSpec (st : SpecSt) : String :=
   let n : Int := st.l.length
@@ -47,6 +50,7 @@ inductive HOp where
   | ro (b : Bool)
   | ppol (p : Nat)
   | clrerr
+  | cfg                                 -- dump of the configuration record and of which policies are present
   | xferto (src : Val)
   | xfer (dest : Val)
   | q (kind : String) (arg : Val)      -- a query / whole-tree call that must return normally and leave the list alone
@@ -74,6 +78,7 @@ def parseHOp (ts : List String) : HOp :=
   | ["ro", b] => .ro (b == "1")
   | ["ppol", p] => .ppol (toNat p)
   | ["clrerr"] => .clrerr
+  | ["cfg"] => .cfg
   | "xferto" :: rest => .xferto (parseVal rest).1
   | "xfer" :: rest => .xfer (parseVal rest).1
   | "q" :: kind :: rest => .q kind (match rest with | [] => .nil | _ => (parseVal rest).1)
@@ -84,6 +89,12 @@ def showOut (op : ListOp) (o : Out) : String :=
   | .pop | .remove _ => s!"{short o.val}:{b01 o.ok}"
   | .insert _ _ | .replace _ _ => b01 o.ok
   | _ => "-"
+
+/-- `cfg` op: the configuration record without the closures, then one presence bit per policy -/
+def cfgDump (c : Cfg) : String :=
+  let bare := { c with ppf := none, vpf := none, rpf := none, eqf := none, umf := none, maf := none, evl := none }
+  let bits := String.join ([c.ppf, c.vpf, c.rpf, c.eqf, c.umf, c.maf, c.evl].map (fun o => b01 o.isSome))
+  s!"D\{{showCfg bare}}P{bits}"
 
 /-- model side of stream `hist` -/
 partial def histModel (s : Stk) (ops : List HOp) (acc : List String) : List String :=
@@ -102,6 +113,7 @@ partial def histModel (s : Stk) (ops : List HOp) (acc : List String) : List Stri
     | .ro b => let s' := s.setState Gen.flag_ronly (some b); histModel s' rest (s!"- {obsModel s'}" :: acc)
     | .ppol p => let s' := s.SetPushPolicy (if p == 0 then none else some p); histModel s' rest (s!"- {obsModel s'}" :: acc)
     | .clrerr => let s' := s.SetErr none; histModel s' rest (s!"- {obsModel s'}" :: acc)
+    | .cfg => histModel s rest (s!"{cfgDump s.cfg} {obsModel s}" :: acc)
     | .xferto src =>
       match src with
       | .stk _ c xs =>
@@ -134,7 +146,7 @@ def specPush (st : SpecSt) (vs : List Val) : SpecSt :=
     let r := ListSpec.pushPol (interp p) (st.c.opts st.l).room vs
     { st with l := st.l ++ r.1, err := match r.2 with | some e => some e | none => st.err }
 
-def specOfStk (s : Stk) : SpecSt := { c := s.conf, l := s.xs, ppf := s.cfg.ppf, err := s.cfg.err }
+def specOfStk (s : Stk) : SpecSt := { c := s.conf, l := s.xs, ppf := s.cfg.ppf, err := s.cfg.err, cfg0 := s.cfg }
 
 /-- spec-side Transfer of `src` into an (initialised, writable) destination: all or report failure -/
 def specTransfer (src : List Val) (dst : SpecSt) : SpecSt × Bool :=
@@ -174,6 +186,7 @@ partial def histSpec (st : SpecSt) (ops : List HOp) (acc : List String) : List S
                  histSpec st' rest (s!"- {obsSpec st'}" :: acc)
     | .clrerr => let st' := { st with err := none }
                  histSpec st' rest (s!"- {obsSpec st'}" :: acc)
+    | .cfg => histSpec st rest (s!"{cfgDump { st.cfg0 with err := st.err, ppf := st.ppf }} {obsSpec st}" :: acc)
     | .xferto src =>
       match src with
       | .stk _ c xs =>
@@ -225,6 +238,7 @@ partial def histInScope (st : SpecSt) (ops : List HOp) : Bool :=
       | .ro b => ({ st with c := { st.c with ronly := b } }, true)
       | .ppol p => (if st.c.ronly then st else { st with ppf := if p == 0 then none else some p }, true)
       | .clrerr => (st, true)
+      | .cfg => (st, true)
       | .xferto src => (match src with
           | .stk _ _ xs => if st.c.ronly then st else (specTransfer xs st).1
           | _ => st, true)
